@@ -25,7 +25,7 @@ def fmStep (toks : List String) : Option String :=
       let has : Digest → Bool := fun d => (parsed.find? (fun (h', _, _, _) => h' == d.hash)).map (fun (_, _, _, p) => p) |>.getD false
       let proxy : Proxy := if px then some has else none
       let missing := findMissing batch (fun _ => idx) proxy maxp ds
-      some ("missing=" ++ showList (missing.map (fun d => d.hash)) ++
+      some ("missing=" ++ showList (missing.map (fun d => if d.hash == emptySha256 then "E" else d.hash)) ++
         s!" failfast={if failFastMiss batch (fun _ => idx) proxy maxp ds then "miss" else "ok"}")
   | _ => none
 
